@@ -185,8 +185,13 @@ func Setup() (*World, error) {
 				case taskop.TransitionTasks:
 					// only sent by the REAL transitions (environment.NewStopActivityTransition etc.), which
 					// the lab itself never uses: the auto-stop timer of the environment does (mon-env).
-					// All tasks "transition" at once and without error.
-					in.EventCh <- event.NewTasksStateChangedEvent(m.GetEnvironmentId(), m.GetTasks().GetTaskIds(), nil)
+					// All tasks "transition" at once and, unless scripted otherwise, without error.
+					// A lab may script the answer (Lab.OnTaskCommand, ext.go): nil = every task transitioned.
+					var terr error
+					if l := w.lab(m.GetEnvironmentId().String()); l != nil && l.OnTaskCommand != nil {
+						terr = l.OnTaskCommand(m)
+					}
+					in.EventCh <- event.NewTasksStateChangedEvent(m.GetEnvironmentId(), m.GetTasks().GetTaskIds(), terr)
 				}
 			}
 		}()
